@@ -221,7 +221,11 @@ func jsonlineData(r *rand.Rand) []byte {
 			if i > 0 {
 				b.WriteString(pick(r, jlWs) + "," + pick(r, jlWs))
 			}
-			b.WriteString(jlObject(r))
+			if r.Intn(12) == 0 { // an element `Setup` refuses (a method with a space), or one that is not an object
+				b.WriteString([]string{`{"method":"G T","host":"h"}`, `{"host":"h","uri":"/","method":"a b","tag":"t"}`, "1", `"s"`, "[]"}[r.Intn(5)])
+			} else {
+				b.WriteString(jlObject(r))
+			}
 		}
 		switch y := r.Intn(10); {
 		case y < 6:
